@@ -92,6 +92,10 @@ static class Ops {
   public static function sm(qubit t) -> bit { bit r0 = measure t; return r0; }
   public static function sms(qubit t) -> void { measure t; }
 }
+function relayQ1(Q1 o, int g, float a, qubit q) -> void { o.ogate(g, a); }
+function relayQ2(Q2 o, int i, int g, float a, qubit[] r) -> void { o.ogate(i, g, a); }
+function relayQU(QU o, int i, int g, float a, qubit q, qubit p) -> void { o.ogate(i, g, a); }
+function relayQD(QD o, int i, int g, float a, qubit q, qubit d) -> void { o.ogate2(i, g, a); }
 @quantum function fgate(qubit t, int g, float a) -> void { if (g == 0) { h(t); } if (g == 1) { x(t); } if (g == 2) { y(t); } if (g == 3) { z(t); } if (g == 4) { rx(t, a); } if (g == 5) { ry(t, a); } if (g == 6) { rz(t, a); } }
 @quantum function fcx(qubit c, qubit t) -> void { cx(c, t); }
 @quantum function fm(qubit t) -> bit { bit r0 = measure t; return r0; }
@@ -117,9 +121,18 @@ def render(beh):
         return "b%d" % nb[0]
 
     lines.append("function main() -> void {")
+    scopes = [[]]         # plain qubit / qubit[2] locals in scope: (variable number, kind)
     for n, st in enumerate(beh["prog"], start=1):
         s = st["s"]
         stmt_line[n] = PRELUDE_LINES + len(lines) + 1
+        if s == "declq":
+            scopes[-1].append((st["v"], "q"))
+        elif s == "declarr":
+            scopes[-1].append((st["v"], "a"))
+        elif s == "open":
+            scopes.append([])
+        elif s == "close" and len(scopes) > 1:
+            scopes.pop()
         if s == "declq":
             lines.append("%squbit v%d;" % ("@tracked " if st["tracked"] else "", st["v"]))
         elif s == "declarr":
@@ -132,12 +145,31 @@ def render(beh):
             ang = angle_expr(k, st.get("m", 0))[0] if g in ROT else "0.0f"
             var = vars_[st["v"] - 1]
             if path == "own" and var["k"] == "obj":
+                # every other own-path gate goes through a relay function whose PARAMETERS carry the names of the class's
+                # qubit fields and are bound to some other qubit in scope: a field name resolved outside the object is visible
+                others_q = [w for sc in scopes for w in sc if w[1] == "q"]
+                others_a = [w for sc in scopes for w in sc if w[1] == "a"]
+                relay = n % 2 == 0
                 if var["cls"] == "Q1":
-                    lines.append("v%d.ogate(%d, %s);" % (st["v"], GIDX[g], ang))
+                    if relay and others_q:
+                        lines.append("relayQ1(v%d, %d, %s, v%d);" % (st["v"], GIDX[g], ang, others_q[-1][0]))
+                    else:
+                        lines.append("v%d.ogate(%d, %s);" % (st["v"], GIDX[g], ang))
                 elif var["cls"] == "QD":
-                    lines.append("v%d.ogate2(%d, %d, %s);" % (st["v"], st["e"] - 1, GIDX[g], ang))
+                    if relay and others_q:
+                        lines.append("relayQD(v%d, %d, %d, %s, v%d, v%d);" % (st["v"], st["e"] - 1, GIDX[g], ang, others_q[-1][0], others_q[0][0]))
+                    else:
+                        lines.append("v%d.ogate2(%d, %d, %s);" % (st["v"], st["e"] - 1, GIDX[g], ang))
+                elif var["cls"] == "QU":
+                    if relay and others_q:
+                        lines.append("relayQU(v%d, %d, %d, %s, v%d, v%d);" % (st["v"], st["e"] - 1, GIDX[g], ang, others_q[-1][0], others_q[0][0]))
+                    else:
+                        lines.append("v%d.ogate(%d, %d, %s);" % (st["v"], st["e"] - 1, GIDX[g], ang))
                 else:
-                    lines.append("v%d.ogate(%d, %d, %s);" % (st["v"], st["e"] - 1, GIDX[g], ang))
+                    if relay and others_a:
+                        lines.append("relayQ2(v%d, %d, %d, %s, v%d);" % (st["v"], st["e"] - 1, GIDX[g], ang, others_a[-1][0]))
+                    else:
+                        lines.append("v%d.ogate(%d, %d, %s);" % (st["v"], st["e"] - 1, GIDX[g], ang))
             elif path == "fn":
                 lines.append("fgate(%s, %d, %s);" % (ref, GIDX[g], ang))
             elif path == "static":
